@@ -387,11 +387,20 @@ func initVolumeWorld() {
 		addPVC(fmt.Sprintf("pvc-k%d", d), "pv-"+driverName(d), "", false)
 		addPVC(fmt.Sprintf("pvc-k%d", 10+d), "", "sc-"+driverName(d), false)
 		addPVC(fmt.Sprintf("pvc-k%d", 20+d), "", "scp-"+driverName(d), false)
+		// bound to a PV that is not (no longer) in the informer: the driver comes from the class
+		addPVC(fmt.Sprintf("pvc-k%d", 60+d), "pv-missing", "sc-"+driverName(d), false)
 		for i := 0; i < maxVolumes; i++ {
 			// the claim of a generic ephemeral volume is named <pod>-<volume> and owned by the pod
 			addPVC(fmt.Sprintf("p-e%dx%d", d, i), "pv-"+driverName(d), "", true)
 		}
 	}
+	addPVC("pvc-k70", "", "sc-missing", false)
+	addPVC("pvc-k71", "", "", false)
+	for i := 0; i < maxVolumes; i++ {
+		// a claim with the name of an ephemeral volume's claim that the pod does NOT own: lookup error
+		addPVC(fmt.Sprintf("p-u%d", i), "pv-drv1", "", false)
+	}
+	// kind 50 refers to "pvc-absent", which is in no store: pendingPVCError
 }
 
 const maxVolumes = 6
@@ -406,7 +415,12 @@ func buildVolumes(kinds []int64) []v1.Volume {
 		case k == 41 || k == 42:
 			vol.Name = fmt.Sprintf("e%dx%d", k-40, i)
 			vol.Ephemeral = &v1.EphemeralVolumeSource{VolumeClaimTemplate: &v1.PersistentVolumeClaimTemplate{}}
-		case k == -1 || k == 30 || k == 1 || k == 2 || k == 11 || k == 12 || k == 21 || k == 22:
+		case k == 51:
+			vol.Name = fmt.Sprintf("u%d", i)
+			vol.Ephemeral = &v1.EphemeralVolumeSource{VolumeClaimTemplate: &v1.PersistentVolumeClaimTemplate{}}
+		case k == 50:
+			vol.PersistentVolumeClaim = &v1.PersistentVolumeClaimVolumeSource{ClaimName: "pvc-absent"}
+		case k == -1 || k == 30 || k == 1 || k == 2 || k == 11 || k == 12 || k == 21 || k == 22 || k == 61 || k == 62 || k == 70 || k == 71:
 			vol.PersistentVolumeClaim = &v1.PersistentVolumeClaimVolumeSource{ClaimName: fmt.Sprintf("pvc-k%d", k)}
 		default:
 			panic("unknown volume kind")
@@ -504,6 +518,17 @@ func upstreamOpts() helpers.PodResourcesOptions {
 	}
 }
 
+// the options of noderesources.computePodResourceRequest (k8s.io/kubernetes v1.36.1
+// pkg/scheduler/framework/plugins/noderesources/fit.go 321-327; not exported): what the fit plugin
+// and, through AdmissionCheck, the kubelet use for the pod being placed - status options off
+func incomingOpts() helpers.PodResourcesOptions {
+	g := utilfeature.DefaultFeatureGate
+	return helpers.PodResourcesOptions{
+		SkipPodLevelResources:                    !g.Enabled(features.PodLevelResources),
+		UseDRANodeAllocatableResourceClaimStatus: g.Enabled(features.DRANodeAllocatableResources),
+	}
+}
+
 // ---------- encoders ----------
 
 func tag(i int64) []int64 { return []int64{-100 - i} }
@@ -575,6 +600,7 @@ type results struct {
 	cBestEffort         bool
 	kubeScalars         []int64 // (name, Value) pairs of kube-scheduler's EphemeralStorage / ScalarResources
 	up                  v1.ResourceList
+	upIncoming          v1.ResourceList // the request upstream computes for the pod being placed
 	upRes               *api.Resource
 	kubeMilliCPU        int64 // kube-scheduler's own PodInfo.CalculateResource
 	kubeMemory          int64
@@ -594,14 +620,21 @@ func compute(c caseT) results {
 	ti := api.NewTaskInfo(pod)
 	r.rq, r.irq, r.bestEffort = ti.Resreq, ti.InitResreq, ti.BestEffort
 	// the TaskInfo the scheduler cache builds (addPod): CSI volumes counted on top
+	// On a lookup error (kinds 50 / 51) it returns the api-level TaskInfo untouched, and addPod still
+	// adds that task to the ledgers when the error is a pending PVC.
 	cti, cerr := theCache.NewTaskInfo(pod)
-	if cerr != nil {
-		panic("SchedulerCache.NewTaskInfo: " + cerr.Error())
+	wantErr := false
+	for _, k := range c.vols {
+		wantErr = wantErr || k == 50 || k == 51
+	}
+	if (cerr != nil) != wantErr || cti == nil {
+		panic(fmt.Sprintf("SchedulerCache.NewTaskInfo: error %v, expected an error: %t", cerr, wantErr))
 	}
 	r.crq, r.cirq, r.cBestEffort = cti.Resreq, cti.InitResreq, cti.BestEffort
 	opts := upstreamOpts()
 	r.up = helpers.PodRequests(pod, opts)
 	r.upRes = api.NewResource(r.up)
+	r.upIncoming = helpers.PodRequests(pod, incomingOpts())
 	if !apiequality.Semantic.DeepEqual(before, pod) {
 		panic("the pod was modified by a request computation")
 	}
@@ -643,15 +676,18 @@ func compute(c caseT) results {
 }
 
 func run(sel int, in []int64) []int64 {
-	if sel != 1 {
+	if sel != 1 && sel != 2 {
 		panic("unknown selector")
 	}
 	r := compute(decode(in))
 	var out []int64
 	for _, x := range [][]int64{tag(1), encRes(r.vc), tag(2), encRes(r.noinit), tag(3), encList(r.up), tag(4), encRes(r.upRes),
 		tag(5), encRes(r.rq), tag(6), encRes(r.irq), tag(7), {vh.B(r.bestEffort)},
-		tag(8), encRes(r.crq), tag(9), encRes(r.cirq), tag(10), {vh.B(r.cBestEffort)}} {
+		tag(8), encRes(r.crq), tag(9), encRes(r.cirq), tag(10), {vh.B(r.cBestEffort)}, tag(11), encList(r.upIncoming)} {
 		out = append(out, x...)
+	}
+	if sel == 2 && sameRequest(r.upRes, r.vc) && sameRequest(api.NewResource(r.upIncoming), r.irq) {
+		panic("refutation witness no longer separates volcano from upstream on the real code")
 	}
 	return out
 }
@@ -771,7 +807,16 @@ func (p podT) untrackedPodLevel() bool {
 	return false
 }
 
+func sameRequest(up, vc *api.Resource) bool {
+	u := up.Clone()
+	u.AddScalar(v1.ResourcePods, 1)
+	return vc.ScalarResources != nil && fmt.Sprint(encRes(u)) == fmt.Sprint(encRes(vc))
+}
+
 func laws(sel int, in, got []int64, law func(lsel int, lin []int64, sig string)) {
+	if sel == 2 {
+		return // refutation witnesses: outside the theorem by construction
+	}
 	c := decode(in)
 	p := c.pod
 	cat := func(xs ...[]int64) (o []int64) {
@@ -800,6 +845,10 @@ func laws(sel int, in, got []int64, law func(lsel int, lin []int64, sig string))
 	law(103, cat([]int64{r.kubeMilliCPU, r.kubeMemory, int64(len(r.kubeScalars) / 2)}, r.kubeScalars, encRes(r.vc), encRes(r.rq)), "")
 	// what the scheduler cache charges (SchedulerCache.NewTaskInfo): + the pod's CSI volumes per attach-limit name
 	law(104, cat(encRes(r.upRes), encRes(r.crq), encRes(r.cirq), []int64{vh.B(r.cBestEffort), int64(len(c.vols))}, c.vols), "")
+	// the pod being placed: InitResreq vs upstream's incoming-pod request (fit.go options, statuses off); the
+	// extracted model applies it only to pods that carry no resize information (see C15_incoming_request_*);
+	// "inside pod_ok" is this function's classification, itself checked against the extracted pod_ok by law 105
+	law(106, cat(in, encRes(api.NewResource(r.upIncoming)), encRes(r.cirq)), "")
 }
 
 // ---------- generators ----------
@@ -1086,7 +1135,10 @@ func genVols(r *vh.Rng) []int64 {
 	n := r.Range(1, maxVolumes)
 	out := []int64{}
 	for i := 0; i < n; i++ {
-		out = append(out, vh.Pick(r, []int64{0, -1, 30, 1, 1, 2, 11, 12, 21, 22, 41, 42}))
+		out = append(out, vh.Pick(r, []int64{0, -1, 30, 1, 1, 2, 11, 12, 21, 22, 41, 42, 61, 62, 70, 71}))
+	}
+	if r.Chance(1, 8) {
+		out[r.Intn(len(out))] = vh.Pick(r, []int64{50, 50, 51}) // a lookup error: nothing is counted at all
 	}
 	return out
 }
@@ -1130,6 +1182,22 @@ func gen(rng *vh.Rng, n int, emit func(id string, sel int, in []int64, kind stri
 				k++
 			}
 		}
+	}
+	// the refutation witnesses of Lemmas.v, run on the real code (selector 2 asserts that they still separate)
+	u := int64(1)
+	wit := map[string]podT{
+		// 2 x memory 500m: fractional bytes, admitted by the API server
+		"fractional-memory": {cs: []contT{{name: 1, req: rlT{{3, qty{500, 3}}}}, {name: 2, req: rlT{{3, qty{500, 3}}}}}},
+		// an init-container status filed under the regular container's name
+		"status-name-collision": {cs: []contT{{name: 1, req: rlT{{2, qty{u, 0}}}}}, ist: []statT{{name: 1, hasRes: true, res: rlT{{2, qty{5, 0}}}}}},
+		// pod-level hugepages size that is in IgnoredDevicesList
+		"untracked-pod-level": {cs: []contT{{name: 1, req: rlT{{2, qty{u, 0}}}}}, hasPl: true, pl: rlT{{12, qty{2, 0}}}},
+		// container status above the spec: InitResreq vs the request of the pod being placed
+		"incoming-with-status": {cs: []contT{{name: 1, req: rlT{{2, qty{u, 0}}}}}, cst: []statT{{name: 1, hasRes: true, res: rlT{{2, qty{2, 0}}}}}},
+	}
+	for _, name := range []string{"fractional-memory", "status-name-collision", "untracked-pod-level", "incoming-with-status"} {
+		c := caseT{ippvs: true, plr: true, ippl: true, meta: metaT{phase: 1}, pod: wit[name]}
+		emit("witness-"+name, 2, c.tokens(), "witness/"+name, false, describe(c))
 	}
 	stream := func(name string, count int, g genCfg, fixGates func(c *caseT)) {
 		r := rng.Fork()
